@@ -214,8 +214,8 @@ theorem P.markerTypeOf_skel (p : P) (ty : MType) (r : P × Nat) (h : p.markerTyp
       · cases h
         exact P.handleForCategory_skel _ _ _
 
-@[simp] theorem P.marker_skel (p : P) (t : Nat) (ty : MType) (name : Nat) (strs : List Nat) :
-    skel (p.marker t ty name strs).1 = skel p := by
+@[simp] theorem P.marker_skel (p : P) (t : Nat) (ty : MType) (name : Nat) (strs : List Nat) (tm : MTiming) :
+    skel (p.marker t ty name strs tm).1 = skel p := by
   unfold P.marker
   split
   · rfl
@@ -310,7 +310,7 @@ theorem step_skel (p : P) (op : Op) (h1 : ∀ a b c, op ≠ .addProcess a b c) (
   | sameSample t => simp [step]
   | allocSample t st => simp [step]
   | markerType n c f => simp only [step]; split <;> rfl
-  | marker t ty n strs => simp [step]
+  | marker t ty n strs tm => simp [step]
   | markerStack t m st => simp [step]
   | counter pi => simp only [step]; split <;> rfl
   | counterSample c => simp only [step]; split <;> rfl
